@@ -97,6 +97,7 @@ class Analyzer:
         self.site_ids = set()
         self.capped = False
         self.frees_param = frees_param_summaries(P)
+        self.stores_param = stores_param_summaries(P)
 
     # ---- state = tuple of Res (immutable by convention: always clone before change)
     def run(self):
@@ -157,6 +158,13 @@ class Analyzer:
             elif name in self.frees_param:
                 for ai in self.frees_param[name]:
                     state = self.release(e, state, path, ai)
+            if name in self.stores_param:
+                for ai, oj in self.stores_param[name].items():
+                    if ai < len(e.args()) and oj < len(e.args()):
+                        t = lvalue_text(e.args()[ai])
+                        owner = lvalue_text(e.args()[oj])
+                        if t is not None and owner is not None:
+                            state = self._escape_alias(state, t, owner + "->(adopted)")
         elif k == "BinaryOperator" and e.op == "=":
             state = self.assign(e, state, path)
         elif k == "DeclStmt":
@@ -524,6 +532,34 @@ class Analyzer:
 
 
 _fp_cache = {}
+
+
+_sp_cache = {}
+
+
+def stores_param_summaries(P):
+    """fn name -> {param index: owner param index}: the function stores pointer parameter i into a
+    member of the object parameter j points to (an `adopt`/`set`/`attach` helper): the caller's
+    resource is handed over to that object."""
+    if id(P) in _sp_cache:
+        return _sp_cache[id(P)]
+    summ = {}
+    for f in P.functions.values():
+        names = [p["n"] for p in f.params]
+        for a in f.body.walk():
+            if not (a.k == "BinaryOperator" and a.op == "="):
+                continue
+            l = a.c[0].strip()
+            r = a.c[1].strip_casts()
+            if l.k != "MemberExpr" or r.k != "DeclRefExpr" or r.get("dk") != "param":
+                continue
+            base = l
+            while base is not None and base.k in ("MemberExpr", "ArraySubscriptExpr"):
+                base = base.c[0].strip_casts() if base.c else None
+            if base is not None and base.k == "DeclRefExpr" and base.get("dk") == "param" and "*" in (r.t or ""):
+                summ.setdefault(f.name, {})[names.index(r.name)] = names.index(base.name)
+    _sp_cache[id(P)] = summ
+    return summ
 
 
 def frees_param_summaries(P):
